@@ -742,6 +742,14 @@ def replay_m(path):
     d = json.load(open(path))
     if d.get('kind') == 'eval_impl':
         return replay_eval_impl(path)
+    if d.get('kind') == 'membership':
+        err = build_tool('render')
+        inp = '\n'.join(json.dumps(q) for q in d['requests']) + '\n'
+        p = subprocess.run([os.path.join(BUILD, 'native', 'debug', 'render')], input=inp, stdout=subprocess.PIPE, stderr=subprocess.PIPE, text=True, timeout=120)
+        outs = [json.loads(l) for l in p.stdout.split('\n') if l.strip()]
+        bad = [o for o in outs if o.get('ok') is None or o['ok'].split('|')[0] != o['ok'].split('|')[1]]
+        print(json.dumps(bad[:5]))
+        return bool(bad)
     if d.get('kind') == 'filter':
         err = build_tool('render')
         inp = '\n'.join(json.dumps(q) for q in d['requests']) + '\n'
@@ -1599,5 +1607,93 @@ def run_tojson(prop, tier, seed):
         ev['problems'].append('engine M: tojson: %s %s' % (verdict, res.get('conflict') or ''))
     log('[%s] engine M (tojson closure, symbolic character): %s %s; %d native renders, %d wrong' % (prop, verdict, stats, len(outs), len(bad)))
     ev['coverage'] = dict(queries=1, results=[res], native_scenarios=len(outs), native_scenarios_failing=len(bad), check='tojson_html_safe')
+    ev['wall_s'] = round(time.time() - t0, 1)
+    return ev
+
+
+# ---------------------------------------------------------------------------------------------
+# ops::contains (C07): membership in a sequence is decided by `==` and by nothing else - every path of the
+# predicate closure goes through PartialEq::eq (a kind pre-check would make `x in [y]` disagree with `x == y`)
+# ---------------------------------------------------------------------------------------------
+def check_membership_uses_eq(mir):
+    hdrs = [m.group(0) for m in re.finditer(r'^fn value::ops::contains::\{closure#\d+\}\(', mir, re.M)]
+    if not hdrs:
+        return [dict(function='ops::contains', verdict='unknown', conflict='predicate closure of ops::contains not found')]
+    out = []
+    for hdr in hdrs:
+        fn = parse_function(function_text(mir, '^' + re.escape(hdr)))
+        adj, preds = cfg(fn)
+        s_ = z3.Solver()
+        s_.set('timeout', 30000)
+        D = {b: z3.Int('E_%s' % b) for b in fn['blocks'] if not fn['blocks'][b]['cleanup']}
+        s_.add(D['bb0'] == 0)
+        n = eqs = 0
+        for bid, blk in fn['blocks'].items():
+            if blk['cleanup']:
+                continue
+            if blk['term'] == 'return;':
+                s_.add(D[bid] == 1)
+            _, callee = call_of(blk['term'])
+            is_eq = bool(callee and re.match(r'<&*value::Value as PartialEq(?:<[^>]*>)?>::eq\(', callee))
+            eqs += is_eq
+            for label, tgt in adj[bid]:
+                if label == 'ok' and is_eq:
+                    s_.add(D[tgt] == 1)
+                else:
+                    s_.add(D[tgt] == D[bid])
+                n += 1
+        t0 = time.time()
+        r = s_.check()
+        dt = time.time() - t0
+        res = dict(function=hdr[3:-1], blocks=len(D), edges=n, eq_calls=eqs, z3_s=round(dt, 3))
+        if r == z3.sat and eqs:
+            res['verdict'] = 'sat'
+        elif r in (z3.sat, z3.unsat):
+            res.update(verdict='unsat', conflict='the membership predicate can answer without comparing with `==`')
+        else:
+            res['verdict'] = str(r)
+        out.append(res)
+    return out
+
+
+def run_membership(prop, tier, seed):
+    t0 = time.time()
+    ev = dict(engine='M', violations=[], known_hits=[], problems=[], coverage={})
+    try:
+        mir = dump_mir(REPO, os.path.join(BUILD, 'mir'))
+    except MirError as e:
+        ev['problems'].append('engine M: %s' % e)
+        return ev
+    results = check_membership_uses_eq(mir)
+    err = build_tool('render')
+    if err:
+        ev['problems'].append('engine M: render tool did not build')
+        return ev
+    vals = ['0', '1', '1.0', 'true', 'false', '"1"', '"a"', 'none', '[1]', '(1,)', '2 ** 70']
+    reqs = [dict(src='{{ (%s) in [%s] }}|{{ (%s) == (%s) }}' % (a, b, a, b), ctx={}) for a in vals for b in vals]
+    inp = '\n'.join(json.dumps(q) for q in reqs) + '\n'
+    p = subprocess.run([os.path.join(BUILD, 'native', 'debug', 'render')], input=inp, stdout=subprocess.PIPE, stderr=subprocess.PIPE, text=True, timeout=120)
+    outs = [json.loads(l) for l in p.stdout.split('\n') if l.strip()]
+    bad = []
+    for q, o in zip(reqs, outs):
+        t = o.get('ok')
+        if t is None or t.split('|')[0] != t.split('|')[1]:
+            bad.append('%s renders %s' % (q['src'], t if t is not None else o))
+    for r in results:
+        if r['verdict'] == 'sat':
+            continue
+        if r['verdict'] != 'unsat':
+            ev['problems'].append('engine M: %s: %s %s' % (r['function'], r['verdict'], r.get('conflict', '')))
+            continue
+        if bad:
+            rp = os.path.join(nativelib.replay_dir(), '%s-M-membership.json' % prop)
+            json.dump(dict(engine='M', kind='membership', property=prop, mir_finding=r, requests=reqs, how='bin/check %s --replay %s' % (prop, rp)), open(rp, 'w'), indent=1)
+            ev['violations'].append(dict(replay=rp, failed=[dict(desc='ops::contains: %s; natively: %s' % (r['conflict'], bad[0][:200]), loc='minijinja/src/value/ops.rs contains (MIR)')]))
+        else:
+            ev['problems'].append('engine M: ops::contains: %s, but `x in [y]` agrees with `x == y` on the whole value grid' % r['conflict'])
+    if bad and all(r['verdict'] == 'sat' for r in results):
+        ev['problems'].append('engine M: `x in [y]` disagrees with `x == y` natively (%s) although the predicate always compares with ==' % bad[0][:200])
+    log('[%s] engine M (ops::contains predicate): %s; native grid %d pairs, %d disagreeing' % (prop, ' '.join(r['verdict'] for r in results), len(outs), len(bad)))
+    ev['coverage'] = dict(queries=len(results), results=results, native_scenarios=len(outs), native_scenarios_failing=len(bad), check='membership_uses_eq')
     ev['wall_s'] = round(time.time() - t0, 1)
     return ev
